@@ -92,7 +92,7 @@ package decoder
 //@   loop 2: decreases len(buf) - cursor
 
 //@ func (*intDecoder).parseInt(d, b) (r, err)
-//@   props C16 C04
+//@   props C16 C04 C06
 // Glue of the signed round trip for non-negative values (C04): what encoder.AppendInt guarantees for x >= 0 (canonUint) is what
 // intDecoder.Decode needs in order not to report an error and to store x.
 //@   lemma[C04] roundtripIntNonNeg: forall s, c, v, kind :: (0 <= s && s < c && c <= len(b) && c - s <= 20 && digitsAt(b, s, c) && (b[s] == '0' ==> c == s+1) && decvalN(b[s:c], c - s) == v && 0 <= v && fitsInt(v, kind)) ==> (jsonIntTok(b, s, c) && !(c - s > 19 || !fitsInt(decvalN(b[s:c], c - s), kind)))
@@ -108,7 +108,7 @@ package decoder
 //@   split len(b) in 1..21
 
 //@ func (*uintDecoder).parseUint(d, b) (r, err)
-//@   props C16 C04
+//@   props C16 C04 C06
 // Glue of the unsigned round trip (C04), for every slice b and all positions: what encoder.AppendUint guarantees about the
 // text it appends (canonUint there: digits only, no leading zero, at most 20 of them, decimal value v) is what the decoder
 // side needs: the scanner's token shape, and the two conditions under which uintDecoder.Decode cannot report an error.
